@@ -51,6 +51,11 @@ def grid_cases():
                 for after in PARENT_SCRIPTS:
                     out.append(normalise({'kind': 'sqlite', 'parent_state': state, 'order': order,
                                           'child': child, 'parent_after': after}))
+    # another thread of the parent holds the open write transaction (and pony's SQLite transaction lock)
+    for child in (['read'], ['write'], ['getconn'], [['fork', ['read', 'write']]]):
+        for after in ([], ['read']):
+            out.append({'kind': 'sqlite', 'parent_state': 'thread_open_write', 'order': 'child_first',
+                        'child': child, 'parent_after': after})
     return out
 
 
@@ -229,7 +234,15 @@ def _child_disconnect_closes_parent_connection(case, message):
     return False
 
 
-EXCLUSIONS = {'fork_inside_open_session': _fork_inside_open_session,
+def _fork_while_other_thread_holds_sqlite_lock(case, message):
+    """SQLiteProvider.transaction_lock is a threading.Lock: if another thread of the parent holds it at the fork, the
+    child's copy stays locked for ever and the child's first write transaction blocks in acquire_lock."""
+    return (case.get('kind') == 'sqlite' and case.get('parent_state') == 'thread_open_write'
+            and message.startswith('[deadlock]'))
+
+
+EXCLUSIONS = {'fork_while_other_thread_holds_sqlite_lock': _fork_while_other_thread_holds_sqlite_lock,
+              'fork_inside_open_session': _fork_inside_open_session,
               'child_disconnect_closes_parent_connection': _child_disconnect_closes_parent_connection}
 
 MANIFEST = {
